@@ -673,9 +673,15 @@ pub fn emit(prop: &str, g: &mut Gen, out: &mut Vec<String>) {
             let n = 1 + g.rng.below(12);
             let mut ops = Vec::new();
             for _ in 0..n {
-                let op = match g.rng.below(16) {
+                let op = match g.rng.below(22) {
                     0..=2 => "s".to_string(),
                     3..=5 => "p".to_string(),
+                    16 => "L".into(),
+                    17 => "E".into(),
+                    18 => (*g.rng.pick(&["A", "a"])).into(),
+                    19 => (*g.rng.pick(&["Df", "Dl"])).into(),
+                    20 => "F".into(),
+                    21 => "f".into(),
                     6 => "y".into(),
                     7 => "o".into(),
                     8 => "t".into(),
